@@ -74,30 +74,30 @@ type simCfg struct {
 }
 
 type sim struct {
-	t    *testing.T
-	cfg  simCfg
-	l    *evlog
-	mu   sync.Mutex
-	ch   [2][][]byte   // ch[x]: packets in flight from x to its peer
-	chT  [2][]time.Time // transmission instants of those packets
-	inb  [2]chan []byte // inbox of side x (capacity 1)
-	conn [2]*gbn.GoBackNConn
-	hsErr [2]error
+	t      *testing.T
+	cfg    simCfg
+	l      *evlog
+	mu     sync.Mutex
+	ch     [2][][]byte    // ch[x]: packets in flight from x to its peer
+	chT    [2][]time.Time // transmission instants of those packets
+	inb    [2]chan []byte // inbox of side x (capacity 1)
+	conn   [2]*gbn.GoBackNConn
+	hsErr  [2]error
 	hsDone [2]chan struct{}
 	ctx    context.Context
 	cancel func()
 
-	sendBusy [2]bool
-	recvBusy [2]bool
-	closed   [2]bool
-	sentMsgs [2][][]byte // messages for which Send was called on side x
-	sendOK   [2][]bool
-	recvMsgs [2][][]byte // messages returned by Recv on side x (copied at return time)
-	recvRaw  [2][][]byte // the very slices Recv returned, kept to see whether the library writes to them later
-	txCount  [2]int
-	wg       sync.WaitGroup
-	blockTx  [2]bool // the transport's send blocks until its context ends (under mu)
-	closeRet [2]bool // Close returned on side x (under mu)
+	sendBusy  [2]bool
+	recvBusy  [2]bool
+	closed    [2]bool
+	sentMsgs  [2][][]byte // messages for which Send was called on side x
+	sendOK    [2][]bool
+	recvMsgs  [2][][]byte // messages returned by Recv on side x (copied at return time)
+	recvRaw   [2][][]byte // the very slices Recv returned, kept to see whether the library writes to them later
+	txCount   [2]int
+	wg        sync.WaitGroup
+	blockTx   [2]bool // the transport's send blocks until its context ends (under mu)
+	closeRet  [2]bool // Close returned on side x (under mu)
 	closeRetN [2]int
 }
 
@@ -309,6 +309,40 @@ func (s *sim) cleanHandshake() bool {
 		}
 	}
 	return false
+}
+
+// scriptedHandshake applies pat[x][i] to the i-th packet of direction x ("deliver", "keep", "drop") and delivers
+// the rest. When the client has completed alone (its SYNACK was lost and the server restarted its handshake) the
+// client's first message `poke` is sent: DATA completes a restarted server handshake. Reports whether poke was used.
+func (s *sim) scriptedHandshake(pat [2][]string, poke []byte) (ok, poked bool) {
+	s.startEndpoints()
+	synctest.Wait()
+	idx := [2]int{}
+	for it := 0; it < 600 && !(s.hsReturned(0) && s.hsReturned(1)); it++ {
+		moved := false
+		for x := 0; x < 2; x++ {
+			if s.canOp(x) {
+				what := "deliver"
+				if idx[x] < len(pat[x]) {
+					what = pat[x][idx[x]]
+				}
+				idx[x]++
+				s.op(x, what)
+				moved = true
+			}
+		}
+		if s.hsReturned(0) && !s.hsReturned(1) && !poked && s.hsErr[0] == nil && poke != nil && !moved {
+			// nothing in flight any more and the server still waits: let its SYNACK timeout pass (it restarts and
+			// waits for a SYN; DATA arriving before that would abort it), then send data
+			s.advance(s.cfg.hsTO + 300*time.Millisecond)
+			poked = true
+			s.send(0, poke)
+		}
+		if !moved {
+			s.advance(250 * time.Millisecond)
+		}
+	}
+	return s.hsReturned(0) && s.hsReturned(1) && s.hsErr[0] == nil && s.hsErr[1] == nil, poked
 }
 
 func (s *sim) send(x int, msg []byte) {
